@@ -58,7 +58,8 @@ def c_val2bytes(T):
     if L == "R":
         return Contract(
             q, params={"val": "float", "att": ("const", T)}, returns=("bytesn", n),
-            ensures=[("width", f"len(result) == {n}")] + ([("ieee", "unpackf(result) == val")] if n == 8 else []),
+            ensures=[("ieee-bytes", f"result == packf(val, {n})"), ("width", f"len(result) == {n}")] +
+                    ([("ieee", "unpackf(result) == val")] if n == 8 else []),
             raises={"OverflowError": "not fits_float32(val)"} if n == 4 else {},
             raises_iff={"OverflowError": "not fits_float32(val)"} if n == 4 else {}, modifies=[])
     if L == "A":
